@@ -910,6 +910,11 @@ class Server:
 
         Server connection handler (main routine per user).
         """
+        server = getattr(self, "server", None)
+        if server is not None and not server.is_serving():
+            # accepted just before close(): nobody would ever stop this session
+            writer.close()
+            return
         host, port, *_ = writer.transport.get_extra_info("peername", ("", ""))
         current_server_host, *_ = writer.transport.get_extra_info("sockname")
         logger.info("new connection from %s:%s", host, port)
